@@ -198,6 +198,8 @@ type c26Child struct {
 	parkedT     int
 	parkedAddr  string
 	pendingSend bool
+	pendConnect []int // connects issued while the sender holds the read lock: they complete after SEnd
+	pendExit    []int // streams whose Send failed while the sender holds the read lock: delete/close after SEnd
 	m           c26Map
 	snap        map[string]bool
 	visited     map[string]bool
@@ -384,21 +386,14 @@ func RunChild(in In, logPath string) {
 				_ = c.srv.GetWALStream(nil, f)
 				atomic.StoreInt32(&f.done, 1)
 			}()
-			if !waitFor(func() bool { return atomic.LoadInt32(&c.ctl.loops[r]) >= 1 }, c26Wait) {
-				c.fail("connect did not complete")
-			}
-			c.lab1("GInsB", 5, r)
-			c.lab1("GInsE", 6, r)
-			c.state[r] = 1
-			c.connAt[r] = c.nCommit
 			if c.pendingSend {
+				// the sender holds the read lock for its whole iteration: the insert waits for it
 				c.tags["connect-during-fanout"] = true
-				c.connFlex[r] = true
+				c.state[r] = 3
+				c.pendConnect = append(c.pendConnect, r)
+				continue
 			}
-			if _, dup := m[f.addr]; dup {
-				c.tags["same-address-overwrite"] = true
-			}
-			m[f.addr] = r
+			c.finishConnect(r)
 		case "stall":
 			if c.state[r] == 1 {
 				atomic.StoreInt32(&f.stalled, 1)
@@ -424,20 +419,14 @@ func RunChild(in In, logPath string) {
 			c.heldLbl[r] = false
 			atomic.StoreInt32(&f.stalled, 0)
 			f.gate <- errors.New("replica went away")
-			if !waitFor(func() bool { return atomic.LoadInt32(&f.done) == 1 }, c26Wait) {
-				c.fail("GetWALStream did not return after a failed Send")
-			}
 			c.labSend(r, false)
-			c.lab1("GDelB", 9, r)
-			c.lab1("GDelE", 10, r)
-			c.lab1("GCloseL", 11, r)
 			c.state[r] = 2
-			if r2, ok := m[f.addr]; ok && r2 != r {
-				c.tags["same-address-delete"] = true
-			}
-			delete(m, f.addr)
 			if c.pendingSend {
+				// delete + close need the write lock: they happen after the sender's iteration
 				c.tags["disconnect-during-fanout"] = true
+				c.pendExit = append(c.pendExit, r)
+			} else {
+				c.finishExit(r)
 			}
 		case "hold":
 			if c.pendingSend || c.state[r] != 1 {
@@ -470,6 +459,35 @@ func RunChild(in In, logPath string) {
 	}
 finish:
 	c.finish()
+}
+
+func (c *c26Child) finishConnect(r int) {
+	f := c.st[r]
+	if !waitFor(func() bool { return atomic.LoadInt32(&c.ctl.loops[r]) >= 1 }, c26Wait) {
+		c.fail("connect did not complete")
+	}
+	c.lab1("GInsB", 5, r)
+	c.lab1("GInsE", 6, r)
+	c.state[r] = 1
+	c.connAt[r] = c.nCommit
+	if _, dup := c.m[f.addr]; dup {
+		c.tags["same-address-overwrite"] = true
+	}
+	c.m[f.addr] = r
+}
+
+func (c *c26Child) finishExit(r int) {
+	f := c.st[r]
+	if !waitFor(func() bool { return atomic.LoadInt32(&f.done) == 1 }, c26Wait) {
+		c.fail("GetWALStream did not return after a failed Send")
+	}
+	c.lab1("GDelB", 9, r)
+	c.lab1("GDelE", 10, r)
+	c.lab1("GCloseL", 11, r)
+	if r2, ok := c.m[f.addr]; ok && r2 != r {
+		c.tags["same-address-delete"] = true
+	}
+	delete(c.m, f.addr)
 }
 
 func (c *c26Child) finish() {
@@ -540,6 +558,7 @@ func (c *c26Child) commit() {
 	c.nCommit++
 	c.lab0("Commit", 0)
 	c.lab0("SRecv", 1)
+	c.lab0("SLock", 12)
 	if bp != "" && c.snap[bp] {
 		if !waitFor(func() bool { return atomic.LoadInt32(&c.ctl.parked) == 1 }, c26Wait) {
 			c.fail("sender did not reach the breakpoint")
@@ -589,6 +608,7 @@ func (c *c26Child) flood(r int, max int) {
 			c.nCommit++
 			c.lab0("Commit", 0)
 			c.lab0("SRecv", 1)
+			c.lab0("SLock", 12)
 			if !waitFor(func() bool {
 				c.ctl.mu.Lock()
 				defer c.ctl.mu.Unlock()
@@ -640,40 +660,20 @@ func (c *c26Child) flood(r int, max int) {
 	c.ev("OBlocked false", 21, 0)
 }
 
-// release lets the parked sender perform its  channel <- tg ; returns true when the run ends here.
+// release lets the parked sender perform its  channel <- tg  and finish the iteration (it holds the read
+// lock until then); afterwards the connects and disconnects that were waiting for the write lock complete.
 func (c *c26Child) release() bool {
 	c.pendingSend = false
 	atomic.StoreInt32(&c.ctl.parked, 0)
-	closedTarget := false
-	for r2 := range c.st {
-		if c.st[r2].addr == c.parkedAddr && c.state[r2] == 2 {
-			if _, still := c.m[c.parkedAddr]; !still {
-				closedTarget = true
-			}
-		}
-	}
-	if closedTarget {
-		// the channel the sender holds was closed meanwhile: in the model this step is the fault.
-		// Announce it BEFORE letting the real sender run: the process will not survive it.
-		c.lab0("SSend", 4)
-		c.ev("OFault 3", 20, 3)
-		c.logf.Sync()
-		c.ctl.gate <- struct{}{}
-		time.Sleep(3 * time.Second) // the sender goroutine panics; if we are still here it did not
-		fmt.Fprintf(c.log, "X survived\n")
-		c.log.Flush()
-		return true
-	}
 	c.ctl.gate <- struct{}{}
 	c.lab0("SSend", 4)
 	if r2, ok := c.m[c.parkedAddr]; ok {
 		c.sent[r2] = append(c.sent[r2], c.parkedT)
 	}
-	// remaining entries: those of the snapshot not yet visited and still mapped; an entry inserted
-	// during the iteration may or may not be produced (Go spec) — give it a moment and take what was logged
+	// the map cannot change during the iteration: the remaining entries are those of the snapshot not yet visited
 	rest := 0
 	for a := range c.snap {
-		if _, ok := c.m[a]; ok && !c.visited[a] {
+		if !c.visited[a] {
 			rest++
 		}
 	}
@@ -681,16 +681,16 @@ func (c *c26Child) release() bool {
 	if !waitFor(func() bool { return c.nLogged() >= want }, c26Wait) {
 		c.fail("sender did not finish its iteration")
 	}
-	// the sender has passed its send once the parked channel's stream has the TG (or holds it / has it queued)
-	if r2, ok := c.m[c.parkedAddr]; ok {
-		f := c.st[r2]
-		waitFor(func() bool {
-			return len(f.got()) >= len(c.sent[r2]) || atomic.LoadInt32(&f.inSend) == 1
-		}, c26Wait)
-	}
-	time.Sleep(150 * time.Millisecond)
 	c.emit(c.parkedT)
 	c.lab0("SEnd", 3)
+	for _, r := range c.pendExit {
+		c.finishExit(r)
+	}
+	c.pendExit = nil
+	for _, r := range c.pendConnect {
+		c.finishConnect(r)
+	}
+	c.pendConnect = nil
 	c.drainStreams()
 	return false
 }
